@@ -36,6 +36,10 @@ type Program struct {
 	globalsWritten map[*types.Var]bool
 	fieldIdxStored map[*types.Var]bool
 	quiet          map[*ast.FuncDecl]bool
+	canonName      map[*types.Func]string // renamed anchor -> the name the rules know it by
+	renamed        map[string]*types.Func // pkg|recv|name of a recorded function -> the function that took its place
+	RenameNotes    []string
+	lexer          map[*ast.FuncDecl]bool
 	funcOf         map[*ast.FuncDecl]*packages.Package
 	ssa            *ssaProgram
 	sums           *Summaries
@@ -135,6 +139,8 @@ func Load(dir string) *Program {
 		pkg.TypesInfo = merged
 	}
 	p.Info = merged
+	curProgram = p
+	p.resolveRenames()
 	p.parents = map[ast.Node]ast.Node{}
 	p.funcOf = map[*ast.FuncDecl]*packages.Package{}
 	for _, pkg := range p.All {
@@ -206,6 +212,28 @@ func (p *Program) IsGenerated(pkg *packages.Package, pos token.Pos) bool {
 
 // FuncDecl finds the declaration of a package-level function or a method ("T.m").
 func (p *Program) FuncDecl(pkg *packages.Package, name string) *ast.FuncDecl {
+	if fd := p.funcDeclByName(pkg, name); fd != nil {
+		return fd
+	}
+	// a recorded function that now goes by another name
+	recv, meth := "", name
+	if i := strings.Index(name, "."); i >= 0 {
+		recv, meth = name[:i], name[i+1:]
+	}
+	if fn := p.renamed[pkg.PkgPath+"|"+pkg.Types.Name()+"."+recv+"|"+meth]; fn != nil && recv != "" {
+		if fd, _ := p.DeclOf(fn); fd != nil {
+			return fd
+		}
+	}
+	if fn := p.renamed[pkg.PkgPath+"||"+meth]; fn != nil && recv == "" {
+		if fd, _ := p.DeclOf(fn); fd != nil {
+			return fd
+		}
+	}
+	return nil
+}
+
+func (p *Program) funcDeclByName(pkg *packages.Package, name string) *ast.FuncDecl {
 	recv, meth := "", name
 	if i := strings.Index(name, "."); i >= 0 {
 		recv, meth = name[:i], name[i+1:]
@@ -271,11 +299,11 @@ func FuncName(pkg *packages.Package, fd *ast.FuncDecl) string {
 	if fd.Recv != nil && len(fd.Recv.List) == 1 {
 		r := recvTypeName(fd.Recv.List[0].Type)
 		if _, ok := fd.Recv.List[0].Type.(*ast.StarExpr); ok {
-			return fmt.Sprintf("%s.(*%s).%s", short, r, fd.Name.Name)
+			return fmt.Sprintf("%s.(*%s).%s", short, r, declName(fd))
 		}
-		return fmt.Sprintf("%s.%s.%s", short, r, fd.Name.Name)
+		return fmt.Sprintf("%s.%s.%s", short, r, declName(fd))
 	}
-	return short + "." + fd.Name.Name
+	return short + "." + declName(fd)
 }
 
 // AllFuncs lists the function declarations (with bodies) of pkg in source order.
